@@ -200,6 +200,41 @@ func runCut(c *mc.Ctx, p cutParams) {
 			sizeExceeded = true
 		}
 
+		// --- the SAME flow object is polled again after an L2 reorg made the blocks of the range lighter (every 4 KiB
+		// metadata gone): the cut must be recomputed from what the syncer holds now, not remembered
+		if l2 := lighter(p.Start, opts); l2 != nil && wantT < to {
+			size2 := make([]uint, p.N)
+			for i := range size2 {
+				t := from + uint64(i)
+				size2[i] = (&types.CertificateBuildParams{FromBlock: from, ToBlock: t, Bridges: l2.wantBridges(from, t),
+					Claims: l2.wantClaims(from, t), CertificateType: ct}).EstimatedSize()
+			}
+			wantT2 := from
+			for i := p.N - 1; i >= 0; i-- {
+				if size2[i] <= max {
+					wantT2 = from + uint64(i)
+					break
+				}
+			}
+			q.l, q.calls = l2, nil
+			r2, err2 := bf.GetCertificateBuildParamsInternal(context.Background(), ct)
+			q.l = l
+			evals++
+			switch {
+			case err2 != nil || r2 == nil:
+				e.failf("second-poll/unexpected-error", "%s: second poll after the range got lighter returned (%v, %v)", tag, r2, err2)
+			case r2.FromBlock != from || r2.ToBlock != wantT2:
+				e.failf("second-poll/not-the-largest-permitted-block", "%s: the first poll gave %d..%d; after the blocks got lighter (prefix sizes %v) the same flow gives %d..%d, want %d..%d",
+					tag, r.FromBlock, r.ToBlock, size2, r2.FromBlock, r2.ToBlock, from, wantT2)
+			case !eqBridges(r2.Bridges, l2.wantBridges(from, wantT2)) || !eqClaims(r2.Claims, l2.wantClaims(from, wantT2)):
+				e.failf("second-poll/events-differ-from-kept-blocks", "%s: second poll %d..%d holds %s", tag, r2.FromBlock, r2.ToBlock, descr(r2.Bridges, r2.Claims))
+			default:
+				if wantT2 > wantT {
+					c.Witness("second_polls_that_fit_more_blocks")
+				}
+			}
+		}
+
 		// --- last-block clamp on the size-limited result (the order the flows apply them); once per
 		// distinct result
 		if limiterDone[wantT] {
@@ -268,6 +303,26 @@ func runCut(c *mc.Ctx, p cutParams) {
 	if limUnchanged {
 		c.Witness("executions_with_an_unchanged_limiter_result")
 	}
+}
+
+// lighter returns the layout in which every block keeps its events but loses its 4 KiB metadata (nil: nothing to lose).
+func lighter(start uint64, opts []int) *layout {
+	o2 := make([]int, len(opts))
+	changed := false
+	for i, oi := range opts {
+		o2[i] = oi
+		if blockOpts[oi].meta > 0 {
+			for j, b := range blockOpts {
+				if b.nb == blockOpts[oi].nb && b.nc == blockOpts[oi].nc && b.meta == 0 {
+					o2[i], changed = j, true
+				}
+			}
+		}
+	}
+	if !changed {
+		return nil
+	}
+	return buildLayout(start, o2)
 }
 
 // lazy is a message prefix that is only formatted when a failure is reported.
